@@ -500,6 +500,9 @@ def sorted_(ex, args, kw, st, where):
             ki, kj = outs_i[0][0], outs_j[0][0]
         lt = v_cmp("<", kj, ki)
         facts.append(z3.ForAll([i, j], z3.Implies(z3.And(i >= 0, i < j, j < n), z3.Not(z3_bool(lt)))))
+        xm = z3.Const(fresh_name("xm"), et.sort)
+        facts.append(mem_all_indices(r))
+        facts.append(z3.ForAll([xm], seq_mem_z3(r, xm) == seq_mem_z3(u.e, xm)))
         ex.sort_sites.append({"function": ex.cur_key, "line": where, "key_i": ki, "key_j": kj, "i": i, "j": j,
                               "r": Sym(u.ty, r), "from_unordered": distinct})
         yield Sym(u.ty, r), st_u.assume(*facts)
@@ -561,6 +564,9 @@ def symbolic_filter(ex, pred, xs, negate, st, where):
              z3.ForAll([i], z3.Implies(z3.And(i >= 0, i < m), z3.And(g(i) >= 0, g(i) < n, r[i] == xs.e[g(i)], p_r, h(g(i)) == i))),
              z3.ForAll([i, j], z3.Implies(z3.And(i >= 0, i < j, j < m), g(i) < g(j))),
              z3.ForAll([j], z3.Implies(z3.And(j >= 0, j < n, p_x), z3.And(h(j) >= 0, h(j) < m, g(h(j)) == j)))]
+    xm = z3.Const(fresh_name("xm"), et.sort)
+    facts.append(mem_all_indices(r))
+    facts.append(z3.ForAll([xm], z3.Implies(seq_mem_z3(r, xm), seq_mem_z3(xs.e, xm))))
     # counting lemma L6 (partition): |filter p xs| + |filter (not p) xs| = |xs|, added when the same predicate
     # object is used both ways on the same sequence (TupleOps.partition)
     reg = ex.__dict__.setdefault("_filter_reg", {})
